@@ -473,6 +473,9 @@ func (an *aliasAn) bind(lhs, rhs ast.Expr) {
 					an.reads(s.High)
 				}
 				if p != dst && !(hi >= 0 && lo >= 0 && hi <= lo) {
+					// under value semantics `dst = p[..]` COPIES what p shows now: a read of p (writes made
+					// earlier through another window of p's storage would be missing from the copy)
+					an.add('r', p, "", lo, hi, rhs.Pos(), t.src(rhs))
 					an.add('a', dst, p, lo, -1, rhs.Pos(), t.src(lhs)+" = "+t.src(rhs))
 				}
 				return
